@@ -606,6 +606,32 @@ def check_c14(tier, seed):
         elif diffs:
             R.violation("the import-table model and TypeConverter disagree on %d histories, none of which breaks alias consistency" % len(diffs),
                         {"kind": "correspondence-broken", "correspondence": "Imp.addImport vs TypeConverter.AddImport", "first": diffs[:3]})
+        # ---- (1b) TypeToExpr: the types migrate spells from type information (Inject[T], Bind[I], Struct[T], ...)
+        from . import typeconv_stream as TCS
+        nt = 4000 if tier == "quick" else 60000
+        trng = G.SplitMix64(seed * 104729 + 7)
+        tl = [TCS.gen_line(trng) for _ in range(nt)]
+        tlines = [l for l, _ in tl]
+        tmodel = C.lean_driver(tlines)
+        rc_t, timpl, out_t = C.go_driver(repo_dir, "migrate", tlines)
+        if len(timpl) < len(tlines):
+            timpl += ["NO-ANSWER"] * (len(tlines) - len(timpl))
+        tdiffs = [i for i, (a, b) in enumerate(zip(tmodel, timpl)) if a != b]
+        R.oblige("correspondence: TConv.render (KV/TypeConv.lean) = TypeConverter.TypeToExpr + import table on %d constructed types" % nt, not tdiffs,
+                 "%d differ; first: %s" % (len(tdiffs), [(tlines[i], tmodel[i], timpl[i]) for i in tdiffs[:1]]))
+        tbad = [(len(tlines[i]), i, w) for i, w in ((i, TCS.judge(tl[i][1], timpl[i])) for i in range(nt)) if w]
+        if tbad:
+            _, i, w = min(tbad)
+            R.violation("a type is not spelled as the type it denotes: %s  [%s -> %s]" % (w, tlines[i], timpl[i]),
+                        {"kind": "input", "failing_input": tlines[i], "observed": timpl[i], "model": tmodel[i], "cases_failing": len(tbad),
+                         "reproduce": "echo '%s' > ops; VERIF_OPS=ops VERIF_OUT=out go test -tags verif -run TestVerifDriver ./internal/migrate (in /repo)" % tlines[i]})
+        elif tdiffs:
+            i = tdiffs[0]
+            R.violation("the TypeToExpr model and the implementation differ on %d types; every implementation answer denotes the type it was made from" % len(tdiffs),
+                        {"kind": "correspondence-broken", "correspondence": "TConv.render vs TypeConverter.TypeToExpr", "case": tlines[i], "model": tmodel[i], "impl": timpl[i]})
+        R.coverage["type_expressions"] = {"types": nt, "with_renamed_import": sum(1 for a in timpl if "_1" in a), "with_type_arguments": sum(1 for a in timpl if re.search(r"N\d+\[", a)),
+                                          "function_types": sum(1 for a in timpl if "func(" in a), "struct_literals": sum(1 for a in timpl if "struct{" in a),
+                                          "without_current_package": sum(1 for _, m in tl if m["cur"] is None), "interface_literals_spelled_any": sum(1 for _, m in tl if TCS.has(m["type"], "ifaceLit"))}
         # ---- (2) end to end: seeded import-heavy configurations
         n = 40 if tier == "quick" else 400
         cases = []
